@@ -63,10 +63,12 @@ CHECKS['C17'] = dict(
           '(distance_ok[_css] c d w = true -> Distance c d, quantifying over all 4^n operators), and a deformed code has the distance '
           'of the undeformed code. Kernel-evaluated: the search below the reported d + a weight-d logical witness on every dumped '
           'undeformed instance whose estimated cost fits the tier; deformed instances tied by the image check. Instances too costly '
-          'are listed in the evidence, not claimed.'),
+          'are listed in the evidence, not claimed; on those (and on a list of long thin lattices) only the refutation side runs: a '
+          'lighter logical found by integer programming and checked in the kernel (lighter_logical c d w = true -> ~ Distance c d).'),
     design_ref='DESIGN.md section 5 C17',
     note=TB + 'Distance is stated as in the property (commutes with all stabilizers, non-trivial logical action); equivalence with '
-         '"not in the stabilizer group" is C04. Packing certificates of DESIGN section 5 were replaced by the verified search.',
+         '"not in the stabilizer group" is C04. Packing certificates of DESIGN section 5 were replaced by the verified search. '
+         'scipy.optimize.milp (HiGHS) is an untrusted witness finder: a wrong or missed candidate can only leave a violation unreported.',
     technique='Coq theorem (complete weight-bounded search + CSS reduction) evaluated in the kernel on dumped tables')
 
 CHECKS['C03'] = dict(
